@@ -89,15 +89,8 @@ where
   }
 
   fn close_internal(&self) {
-    let pinned_map = self.dispatcher.subscriptions.pin();
-    for (_topic, list_arc) in pinned_map.iter() {
-      let subscribers_snapshot = list_arc.reader.enter();
-      for mailbox_weak in subscribers_snapshot.iter() {
-        if let Some(mailbox_strong) = mailbox_weak.upgrade() {
-          mailbox_strong.disconnect();
-        }
-      }
-    }
+    // Receivers are disconnected only when the last sender handle is gone (see the dispatcher).
+    self.dispatcher.sender_gone();
   }
 
   /// Returns `true` if all receivers for this channel have been dropped.
@@ -294,13 +287,15 @@ where
 
       let mailbox_capacity = self.consumer.capacity();
       let (p, c) = mailbox::channel(mailbox_capacity);
+      let p = Arc::new(p);
+      dispatcher.register_mailbox(&p);
 
       let topics_to_subscribe: Vec<K> = self.subscriptions.lock().iter().cloned().collect();
 
       let new_receiver = Self {
         dispatcher: self.dispatcher.clone(),
         consumer: c,
-        producer_mailbox: Arc::new(p),
+        producer_mailbox: p,
         subscriptions: Arc::new(Mutex::new(HashSet::new())),
         closed: AtomicBool::new(false),
       };
